@@ -601,9 +601,9 @@ def _enum_table(tier):
                         for idx in idxs:
                             for key, note in probes:
                                 i += 1
-                                if tier == 'quick' and mode != 'TRUE' and i % 3:
+                                if tier == 'quick' and (i % 2 if mode == 'TRUE' else i % 4):
                                     continue
-                                sp = 'rng' if i % 2 else 'lit'
+                                sp = 'rng' if (i // 2) % 2 else 'lit'
                                 tbl = _tables(fn, keys, w, sp == 'rng')
                                 yield {'k': 'table', 'fn': fn, 'key': enc(key), 'tbl': encm(tbl), 'idx': idx, 'mode': mode,
                                        'sp': sp, 'kcell': bool(sp == 'rng' and i % 3 == 0)}
@@ -676,7 +676,7 @@ def _enum_crit(tier):
         for e in ELEMS:
             i += 1
             for fn in ('COUNTIF', 'SUMIF'):
-                if fn == 'SUMIF' and tier == 'quick' and i % 2:
+                if fn == 'SUMIF' and tier == 'quick' and i % 4:
                     continue
                 yield {'k': 'crit', 'fn': fn, 'crit': enc(crit), 'rng': [[enc(e)]], 'acc': None if fn == 'COUNTIF' else [[7.0]],
                        'sp': 'rng', 'ccell': bool(i % 2)}
@@ -871,6 +871,6 @@ def parts(tier, seed):
         ('enum', 'lookup', _enum_lookup(tier), 100, True),
         ('enum', 'table', _enum_table(tier), 100, True),
         ('enum', 'criteria', _enum_crit(tier), 100, True),
-        ('hyp', 'rand-look', 2500 if q else 150000),
-        ('hyp', 'rand-crit', 2500 if q else 150000),
+        ('hyp', 'rand-look', 1600 if q else 150000),
+        ('hyp', 'rand-crit', 1600 if q else 150000),
     ]
